@@ -14,12 +14,12 @@ typedef std::vector<uint8_t> Elem;
 enum
 {
     L_VEC, L_BUF, L_RM_SPARE, L_RM_FULL, L_SORTF_SPARE, L_SORTF_FULL, L_SORTB_SPARE, L_SORTB_FULL, L_BIGIDX, L_REALLOC,
-    L_BUF_REFUSED, L_STORE_MID, L_ERASE_MID, L_ERASE_TRUNC, L_SETZ, L_SWAP, L_PUSH_SORT, L_SIZ_GT8, L_FAULT_HIT, L_FAULT_LATE, L_BUF_SETM_SHRINK, L_SEARCH
+    L_BUF_REFUSED, L_STORE_MID, L_ERASE_MID, L_ERASE_TRUNC, L_SETZ, L_SWAP, L_PUSH_SORT, L_SIZ_GT8, L_FAULT_HIT, L_FAULT_LATE, L_BUF_SETM_SHRINK, L_SEARCH, L_LARGE
 };
 static char const *const labels[] = {"vector", "buffer", "positional_remove_with_spare_slot", "positional_remove_exactly_full",
                                      "sort_fore_spare", "sort_fore_full", "sort_back_spare", "sort_back_full", "index_ge_2^32",
                                      "reallocation", "buffer_refused_op", "store_in_middle", "erase_in_middle", "erase_truncates", "setz",
-                                     "swap", "push_sort", "element_size_gt_8", "fault_hit_library_request", "fault_not_in_first_op", "buf_setm_shrink_below_count", "search", nullptr};
+                                     "swap", "push_sort", "element_size_gt_8", "fault_hit_library_request", "fault_not_in_first_op", "buf_setm_shrink_below_count", "search", "capacity_or_count_of_several_hundred_elements", nullptr};
 static char const *const metrics[] = {"max_elements", "faulty_executions", nullptr};
 static uint8_t const dict[] = {16, 6, 5, 11, 12, 13, 14};
 #ifdef VP_FAULT
@@ -695,6 +695,9 @@ static void check_foreach(Run &r, Box &b)
     VP_CHECK(r.cx, i == 0, "seq:forenum_reverse", "reverse enumeration stops %zu early", i);
 }
 
+// large containers make every later step (full verification) slow: generated by the rapidcheck processes, not by the
+// coverage-guided ones (VP_NO_HEAVY), which would spend their budget on them
+static bool no_heavy();
 static void make_box(Run &r, Box &b, Tape &t, bool is_buf)
 {
     uint8_t c = t.u8() % 11;
@@ -726,7 +729,15 @@ static void make_box(Run &r, Box &b, Tape &t, bool is_buf)
     else
     {
         r.cx.label(L_BUF);
-        size_t cap = t.u8() % 13;
+        uint8_t cb = t.u8();
+        size_t cap = cb % 13;
+        if (cb >= 250 && !no_heavy())
+        {
+            // occasionally a capacity of several kilobytes (block-wise copies / rotations only start there)
+            static size_t const big[] = {260, 520, 600, 1030, 1500, 2100};
+            cap = big[cb - 250];
+            r.cx.label(L_LARGE);
+        }
         b.cap = cap;
         if (b.heap_obj)
         {
@@ -766,6 +777,12 @@ static void drop_box(Run &r, Box &b)
     b.v = nullptr;
     b.b = nullptr;
     VP_CHECK(r.cx, dtor_seen.size() == n, "seq:dtor_calls", "destroying %zu elements called the destructor %zu times", n, dtor_seen.size());
+}
+
+static bool no_heavy()
+{
+    static bool const v = getenv("VP_NO_HEAVY") != nullptr;
+    return v;
 }
 
 static void run_history(Tape &t, Ctx &cx, uint64_t fail_at, int mode, uint64_t *requests_out)
@@ -824,7 +841,7 @@ static void run_history(Tape &t, Ctx &cx, uint64_t fail_at, int mode, uint64_t *
         case 16: {
             // fill to capacity: constructs the "exactly full" state
             unsigned guardn = 0;
-            while (b.num() < b.mem() && guardn++ < 200)
+            while (b.num() < b.mem() && guardn++ < 5000)
             {
                 Elem e = mk(b, t.u8());
                 void *p = b.is_buf ? a_buf_push_back(b.b) : a_vec_push_back(b.v);
@@ -835,6 +852,27 @@ static void run_history(Tape &t, Ctx &cx, uint64_t fail_at, int mode, uint64_t *
             cx.log("fill to capacity (%zu)\n", b.mem());
             verify(r, b, "fill to capacity");
             break; }
+        case 17:
+            if (!b.is_buf && !(opb & 0x40) && !no_heavy())
+            {
+                // grow a vector to several hundred elements and then up to num == mem: the exactly-full state at a size where
+                // the trailing part of a removal is kilobytes long
+                static unsigned const big[] = {64, 300, 520, 700, 1100, 2100};
+                unsigned target = big[t.u8() % 6], guardn = 0;
+                while ((b.num() < target || b.num() < b.mem()) && guardn++ < 6000)
+                {
+                    Elem e = mk(b, uint8_t(guardn * 7u + 1u));
+                    void *p = a_vec_push_back(b.v);
+                    if (!p) { break; } // only under fault injection
+                    memcpy(p, e.data(), b.siz);
+                    b.m.push_back(e);
+                }
+                cx.label(L_LARGE);
+                cx.log("bulk push to %zu elements (capacity %zu)\n", b.num(), b.mem());
+                verify(r, b, "bulk push");
+                break;
+            }
+            /* fall through */
         default:
             if (opb & 0x40) { op_setz(r, b, t); }
             else if (!b.is_buf && r.nbox == 2)
